@@ -751,14 +751,21 @@ package weshnet
 //@ # ---- restore: the driver. Handlers are arbitrary code (five built-in ones, then the caller's); herrs() counts the
 //@ # errors they returned. A restore that reports success saw no handler or post-processing error.
 //@ ghost herrs() Int
+//@ # importHooks: how many key-import post-processing steps were constructed (ghost, set by restoreKeys only; the handler
+//@ # closures are assumed not to construct further ones)
+//@ ghost importHooks() Int
 //@ extern restoreHandlerCall(header, reader) (handled, err)
 //@   havocall
 //@   modifies herrs
+//@   modifies importHooks
 //@   ensures (err != nil ==> herrs == old(herrs) + 1) && (err == nil ==> herrs == old(herrs))
+//@   ensures importHooks == old(importHooks)
 //@ extern restorePostProcessCall() (err)
 //@   havocall
 //@   modifies herrs
+//@   modifies importHooks
 //@   ensures (err != nil ==> herrs == old(herrs) + 1) && (err == nil ==> herrs == old(herrs))
+//@   ensures importHooks == old(importHooks)
 //@ func RestoreAccountExport
 //@   for C20
 //@   safety
@@ -766,17 +773,19 @@ package weshnet
 //@   calls .PostProcess as restorePostProcessCall
 //@   requires logger != nil
 //@   havocall
-//@   modifies herrs
+//@   modifies herrs, importHooks
 //@   ensures [C20.restore.abort-on-error] ret0 == nil ==> herrs == old(herrs)
+//@   # on EVERY path that reports success exactly one import step was constructed for the caller's database
+//@   ensures [C20.restore.import-on-every-path] ret0 == nil ==> importHooks == old(importHooks) + 1
 //@   # which built-in handlers the driver installs: the post-processing step that imports the keys works on the
 //@   # caller's database (with C20.keys.import / C20.keys.missing of restoreKeys$1 and abort-on-error: a restore that
 //@   # reports success ran an import that saw both key files), and the two key readers are keyed by the two file names
 //@   at (*restoreAccountState).restoreKeys requires [C20.restore.installs-import] odb == caller_odb
 //@   at (*restoreAccountState).readKey requires [C20.restore.installs-keyreaders] keyName == "account.key" || keyName == "account_proof.key"
 //@   # (`handlers` names the parameter: the list iterated is the five built-in handlers followed by it)
-//@   loop 0 invariant herrs == old(herrs) && logger != nil
-//@   loop 1 invariant herrs == old(herrs) && logger != nil && -1 <= rangeindex && rangeindex < 5 + len(handlers)
-//@   loop 2 invariant herrs == old(herrs) && -1 <= rangeindex && rangeindex < 5 + len(handlers)
+//@   loop 0 invariant herrs == old(herrs) && logger != nil && importHooks == old(importHooks) + 1
+//@   loop 1 invariant herrs == old(herrs) && logger != nil && -1 <= rangeindex && rangeindex < 5 + len(handlers) && importHooks == old(importHooks) + 1
+//@   loop 2 invariant herrs == old(herrs) && -1 <= rangeindex && rangeindex < 5 + len(handlers) && importHooks == old(importHooks) + 1
 //@ # the constructors of the built-in handlers only allocate closures
 //@ func (*restoreAccountState).readKey
 //@   for C20
@@ -784,6 +793,9 @@ package weshnet
 //@ func (*restoreAccountState).restoreKeys
 //@   for C20
 //@   safety
+//@   modifies importHooks
+//@   ghostset importHooks := old(importHooks) + 1
+//@   ensures [C20.restore.hook-counted] importHooks == old(importHooks) + 1
 //@ func restoreOrbitDBEntry
 //@   for C20
 //@   safety
